@@ -20,19 +20,21 @@ impl Year {
 		self.0
 	}
 
-	pub(crate) fn next(self) -> Self {
+	pub(crate) fn next(self) -> FResult<Self> {
 		if self.value() == -1 {
-			Self::new(1)
+			Ok(Self::new(1))
 		} else {
-			Self::new(self.value() + 1)
+			let year = self.value().checked_add(1);
+			Ok(Self::new(year.ok_or(FendError::YearOutOfRange)?))
 		}
 	}
 
-	pub(crate) fn prev(self) -> Self {
+	pub(crate) fn prev(self) -> FResult<Self> {
 		if self.value() == 1 {
-			Self::new(-1)
+			Ok(Self::new(-1))
 		} else {
-			Self::new(self.value() - 1)
+			let year = self.value().checked_sub(1);
+			Ok(Self::new(year.ok_or(FendError::YearOutOfRange)?))
 		}
 	}
 
